@@ -158,6 +158,10 @@ Section Den.
         Ret (DF (fun vs => match vs with
                            | [v] => let! d := den body (upd ρ x (DV v)) in to_val d
                            | _ => Panic P_ILLTYPED end))
+    | RClosureMove x body =>                           (* same meaning: only what the closure owns differs *)
+        Ret (DF (fun vs => match vs with
+                           | [v] => let! d := den body (upd ρ x (DV v)) in to_val d
+                           | _ => Panic P_ILLTYPED end))
     | RClosureIgn body =>
         Ret (DF (fun vs => match vs with
                            | [_] => let! d := den body ρ in to_val d
